@@ -2,7 +2,7 @@
 """import a confirmed seeded change from /tmp/mut/out_<ID>/m<K> into /verif/seeded/<ID>_m<K>/"""
 import sys, os, re, json, shutil
 pid, k = sys.argv[1], sys.argv[2]
-src = '/tmp/mut/out_%s/m%s' % (pid, k)
+src = '%s/out_%s/m%s' % (os.environ.get('MUT_DIR', '/tmp/mut'), pid, k)
 log = open(os.path.join(src, 'confirm.log')).read()
 ok = ('demo_clean_rc=0' in log and 'build_rc=0' in log and '100% tests passed, 0 tests failed out of 433' in log
       and re.search(r'demo_patched_rc=[1-9]', log) and 'APPLY_FAILED' not in log)
